@@ -37,6 +37,25 @@ Section Main.
     snd (remote_single V pbytes dump load f valid tb_of shipped prefix nc j fs) = local V f j.
   Proof. intros H P. apply main_single; auto using fresh_prior. Qed.
 
+  (** attempts of one evaluation hash on one scratch directory: earlier attempts may have had other
+      arguments (config_args and JobInfo arguments are not part of the evaluation hash) *)
+  Theorem main_attempts prefix nc hist j fs :
+    hexstr (j_hash j) = true ->
+    prior_ok' prefix nc j (run_attempts V pbytes dump load f valid tb_of shipped prefix nc hist fs) ->
+    snd (remote_single V pbytes dump load f valid tb_of shipped prefix nc j
+           (run_attempts V pbytes dump load f valid tb_of shipped prefix nc hist fs)) = local V f j.
+  Proof. intros. apply main_single; assumption. Qed.
+
+  Theorem main_attempts_after_failures prefix nc hist j fs :
+    hexstr (j_hash j) = true -> fresh prefix fs j ->
+    Forall (fun a => j_hash a = j_hash j /\ exists e, f (j_args a) (j_kwargs a) = Exc V e) hist ->
+    snd (remote_single V pbytes dump load f valid tb_of shipped prefix nc j
+           (run_attempts V pbytes dump load f valid tb_of shipped prefix nc hist fs)) = local V f j.
+  Proof.
+    intros H Fr Hh. apply (attempts_after_failures V pbytes dump load f valid tb_of RT shipped shipped_ok);
+      auto using hex_name.
+  Qed.
+
   Lemma hexjobs_names jobs : HexJobs jobs -> Forall (fun j : job V => Name (j_hash j)) jobs.
   Proof. apply Forall_impl. intros j. apply hex_name. Qed.
 
@@ -171,6 +190,19 @@ Module Instance.
     elem [2; 0; 2] 1 = Some (CReject V (Leaf 99)) /\
     elem [1; 1] 0 = Some (CDone V (Seq [Leaf 1; Leaf 10])) /\
     elem [] 2 = Some (local V f {| j_hash := lit "c3"; j_args := Leaf 3; j_kwargs := Leaf 30 |}).
+  Proof. repeat split; vm_compute; reflexivity. Qed.
+
+  (** staging the input only if absent ([if_absent], the variant `if not input_file.exists()`): a
+      failed attempt with arguments 0 leaves its input; the next attempt of the same hash with
+      arguments 3 then runs on the stale input *)
+  Definition attempt1 : job V := {| j_hash := lit "a1"; j_args := Leaf 0; j_kwargs := Leaf 10 |}.
+  Definition attempt2 : job V := {| j_hash := lit "a1"; j_args := Leaf 3; j_kwargs := Leaf 10 |}.
+  Definition second_attempt (c : cfg) : collected V :=
+    let fs1 := fst (remote_single V pb dump load f valid tb c prefix false attempt1 []) in
+    snd (remote_single V pb dump load f valid tb c prefix false attempt2 fs1).
+  Lemma if_absent_refuted :
+    second_attempt (if_absent shipped) = CReject V (Leaf 99) /\ local V f attempt2 = CDone V (Seq [Leaf 3; Leaf 10])
+    /\ second_attempt shipped = local V f attempt2.
   Proof. repeat split; vm_compute; reflexivity. Qed.
 
   (** reuniting: one single job, one array with two children, one unrelated head-node job *)
